@@ -22,6 +22,7 @@ type Query implements Node {
   date(d: Date): Date
   list(xs: [[Int]!]): [Int]
   req(a: Int!, b: Int! = 2): Int
+  many(fs: [Filter!]): Int
 }
 type Mutation { set(in: Filter!): Pet }
 type Subscription { tick(every: Int): Int tock: Int pet: Pet }
@@ -121,6 +122,30 @@ var overlapSel = []string{
 	`n: name(short: true)`, `tags`, `...PF`, `... on Pet { n: kind }`, `owner { ... on Person { id: age } }`, `name(short: $t)`, `name(short: $u)`,
 }
 
+// linkSel: valid selections on Query that exercise every kind of link (C09).
+var linkSel = []string{
+	`a1: id`,
+	`a2: node(id: "1") { id ... on Pet { kind owner { id } } ... on Named { name(short: true) } }`,
+	`a3: search(f: {req: true, sub: {req: false, kinds: [DOG, CAT], min: $v}, kinds: DOG, name: null}) { __typename ... on Named { name } ... on Pet { tags } }`,
+	`a4: search(ks: DOG, q: """q""", fl: 1, i: 2, b: true) { ... on Person { pets(first: $v) { id } } }`,
+	`a5: list(xs: [[1, $v], 2, [], null])`,
+	`a6: list(xs: 3)`,
+	`a7: one(arg: {a: $nn})`,
+	`a8: date(d: {any: [1, {x: $v}], s: "t"})`,
+	`a9: pet(kind: $k) @include(if: true) { id @tag(name: "t", n: $v) @tag(name: "t2") }`,
+	`... on Query @tag(name: "i") { b1: id }`,
+	`... @skip(if: false) { b2: id }`,
+	`...LG @tag(name: "s")`,
+	`b3: __schema { types { name fields { name } } }`,
+	`b4: __type(name: "Pet") { name kind }`,
+	`b5: named { __typename ... on Pet { owner { pets(first: 2) { id } } } ... on Node { id } }`,
+	`b6: req(a: 1, b: $v)`,
+	`b7: many(fs: {req: true, sub: {req: true}})`,
+	`c1: many(fs: [{req: true}, {req: false, kinds: CAT}])`,
+	`b8: person { friend { friend { nick } } pets { nick owner { age } } }`,
+	`b9: search(f: $f, n: $nn) { ... on Result { __typename } }`,
+}
+
 var overlapArgs = []string{
 	`s: search { __typename }`, `s: search(ks: [DOG]) { __typename }`, `s: search(ks: [CAT]) { __typename }`, `s: search(ks: [DOG, CAT]) { __typename }`, `s: search(ks: DOG) { __typename }`,
 	`s: search(f: {req: true}) { __typename }`, `s: search(f: {req: false}) { __typename }`, `s: search(f: {req: true, name: "a"}) { __typename }`, `s: search(f: {req: true, sub: {req: true}}) { __typename }`,
@@ -188,6 +213,11 @@ var ValidProfiles = []Profile{
 		{`fragment T1 on __Type { fields { type { ...T2 } } } fragment T2 on __Type { fields { type { fields { name } } } } fragment T3 on __Type { fields { type { fields { type { name } } } } } fragment TC on __Type { name }`,
 			`fragment T1 on __Type { fields { type { ...T2 } } } fragment T2 on __Type { fields { name } } fragment T3 on __Type { name } fragment TC on __Type { fields { type { ...TC } } }`},
 	}},
+	{Name: "links", Template: `query Q($v: Int = 1, $k: Kind!, $f: Filter, $vs: [Int]!, $nn: Int!) §0 { u1: search(n: $v, ks: [$k], f: $f) { __typename } u2: list(xs: [$vs]) u3: req(a: $nn) ...LF §1 §2 } fragment LF on Query { lf: id §3 ...LG } fragment LG on Query { lg: id §4 } mutation M($in: Filter!) { set(in: $in) { id } } subscription S { tick(every: 1) }`,
+		Holes: [][]string{
+			{``, `@tag(name: "op")`, `@once(v: $v) @tag(name: "a") @tag(name: "b", n: $v)`},
+			linkSel, append([]string{``}, linkSel...), append([]string{``}, linkSel...), append([]string{``}, linkSel...),
+		}, MaxDev: 3},
 	{Name: "roots-s2", Schema: 1, Template: `§0 §1`, Holes: [][]string{
 		{`{ a }`, `query { a b }`, `mutation { a }`, `subscription { a }`, `mutation M { x }`, `{ q { q { a } } }`, `{ b(x: "s") }`, `{ a { x } }`, `{ q }`, `subscription S { a b }`, `{ ... on Mutation { a } }`},
 		{``, `query N { a }`, `mutation N { a }`, `fragment F on Query { a }`, `fragment F on Mutation { a } query N { ...F }`},
